@@ -210,6 +210,51 @@ def main(pid, tier):
             for members in byk.values():
                 if not any(set(members) <= set(grp) for grp in ref):
                     rep.failure('files equal on every key are in different groups', dict(case, tag='group:together'))
+            # keyed by the group-by values, in the order of group_by, also for another group_by order
+            gbs = [('SeriesInstanceUID', 'SeriesNumber', 'ProtocolName', 'ImageOrientationPatient')]
+            perm = list(gbs[0]); r.shuffle(perm)
+            gbs.append(tuple(perm))
+            gbs.append(tuple(r.sample(gbs[0], r.choice([2, 3]))))
+            for gb in gbs:
+                with warnings.catch_warnings():
+                    warnings.simplefilter('ignore')
+                    try:
+                        gk = dcmstack.parse_and_group(paths, group_by=gb)
+                    except Exception as e:
+                        rep.failure('parse_and_group(group_by=%r) raised %r' % (gb, e), dict(case, tag='group:keys', group_by=list(gb)))
+                        continue
+                rep.evaluations += 1
+                rep.count('group/keyed_by/%d' % len(gb))
+                bad = None
+                for key, grp in gk.items():
+                    for x in grp:
+                        inf = info[x[2]]
+                        own = {'SeriesInstanceUID': inf['exact'][0], 'SeriesNumber': inf['exact'][1],
+                               'ProtocolName': inf['exact'][2], 'ImageOrientationPatient': inf['iop']}
+                        if len(key) != len(gb):
+                            bad = (key, x[2]); break
+                        for kk, name in zip(key, gb):
+                            want = own[name]
+                            if name == 'ImageOrientationPatient':
+                                try:
+                                    okk = (kk is None and want is None) or (kk is not None and want is not None and
+                                                                           np.allclose(np.array(kk, dtype=float), np.array(want), atol=6e-5))
+                                except (TypeError, ValueError):
+                                    okk = False
+                            else:
+                                okk = (kk == want)
+                            if not okk:
+                                bad = (key, os.path.basename(x[2]), name); break
+                        if bad:
+                            break
+                    if bad:
+                        break
+                if bad:
+                    rep.failure('group_by=%r: a file sits under key %r, which is not its group-by values in that order (%s)' % (gb, bad[0], bad[1:]),
+                                dict(case, tag='group:keys', group_by=list(gb)))
+                flatk = sorted(x[2] for grp in gk.values() for x in grp)
+                if flatk != sorted(paths):
+                    rep.failure('group_by=%r: groups are not a partition of the readable image files' % (gb,), dict(case, tag='group:partition', group_by=list(gb)))
             # path order independence (partition)
             sh = list(paths)
             r.shuffle(sh)
